@@ -2,17 +2,26 @@
   C03 — Request framing is unambiguous; no desynchronisation.
 
   Statements only; proofs delegate to `Mhd.Proofs.Framing*`.  The model
-  (`Mhd.Model.Framing`, `Chunked`, `FramingConn`) mirrors `parse_connection_headers`,
+  (`Mhd.Model.Framing`, `Chunked`, `FramingConn`, `FramingTake`) mirrors `parse_connection_headers`,
   `process_request_body`, `transmit_error_response_len`, `MHD_queue_response`,
   `keepalive_possible`, `connection_reset` and the receive side of
   `MHD_connection_handle_idle` of connection.c *with the fixes F2, F3, F9, F16 applied*.
 
-  Domain restriction (explicit): request heads are split by the strict splitter
-  `parseHead`; it is the real parser only on canonical heads (`CanonicalHead`, decidable).
-  (`Expect: 100-continue` is inside the domain: `need100Continue` / `continueSending`.)  Non-canonical input drives the model into `outOfDomain` (no prediction) — never into a
-  silent default.
+  The request-head parser is a **parameter** (`HeadParser`): all theorems about the connection
+  automaton hold for every head parser that is an incremental scanner (`LawfulHeadParser`: its
+  verdict on a buffer is not changed by bytes arriving behind it; a head is never empty) and for
+  every `Head` such a parser delivers — any method and target, **any list of (name, value)
+  fields**: any letter case, order, multiplicity, list values.  The framing decision
+  `decideBody` is characterised on every field list (`decideBody_agrees_reference`).
+  Which bytes make up a head, and which fields they denote, is C02's subject; the strict
+  splitter `parseHead` (CRLF only, token names, OWS around values) is one lawful instance
+  (`strict_parser_lawful`) and the one the executable driver runs — there, input it does not
+  accept drives the model into `outOfDomain` (no prediction), never into a silent default.
+  (`Expect: 100-continue` is inside the domain: `need100Continue` / `continueSending`.)
 -/
 import Mhd.Proofs.FramingRefAgree
+import Mhd.Proofs.FramingTotal
+import Mhd.Proofs.FramingTake
 
 namespace Mhd.C03
 open Mhd.Framing Mhd.Gen.Framing Mhd.Framing.Framer
@@ -68,6 +77,61 @@ theorem decideBody_te_cl_tolerated (lvl : Int) (http11 : Bool) (fs : List Field)
     decideBody lvl http11 fs = .chunked true :=
   decideBody_te_cl_lenient lvl http11 fs hh te v hte hc hcl hl
 
+/-- **`decideBody` = the strict RFC 9112 §6.3 reference on EVERY field list.**  ∀ level, ∀ HTTP
+    version, ∀ list of (name, value) fields whatsoever — no canonicity, names in any case, any
+    order, duplicates, several Content-Length / Transfer-Encoding fields, list values, empty values —
+    on which the Host rule does not fire: where the reference `Framer.bodyKind` (20 lines, counts
+    *all* fields of a name) says no body / length n / chunked, `decideBody` says the same (chunked on
+    HTTP/1.0 additionally marks the connection must-close); where the reference says *invalid*,
+    `decideBody` refuses with 400 or 413 — the single exception being exactly one
+    `Transfer-Encoding: chunked` plus exactly one Content-Length below the strict threshold, which is
+    read as chunked with the connection marked must-close.  `bodyKind` has no fifth outcome, so this
+    is a total characterisation. -/
+theorem decideBody_agrees_reference (lvl : Int) (http11 : Bool) (fs : List Field) (hh : HostOK lvl http11 fs) :
+    match bodyKind fs with
+    | .none => decideBody lvl http11 fs = .none
+    | .len n => decideBody lvl http11 fs = .len n
+    | .chunked => decideBody lvl http11 fs = .chunked (! http11)
+    | .invalid =>
+      (TeClPair fs ∧ ¬ teClRejectFromLvl ≤ lvl ∧ decideBody lvl http11 fs = .chunked true) ∨
+      decideBody lvl http11 fs = .reject httpBadRequest ∨ decideBody lvl http11 fs = .reject httpContentTooLarge :=
+  decideBody_agrees lvl http11 fs hh
+
+/-- … and when the Host rule fires, the request is refused whatever the framing fields are. -/
+theorem host_rule_refuses (lvl : Int) (http11 : Bool) (fs : List Field) (hh : ¬ HostOK lvl http11 fs) :
+    decideBody lvl http11 fs = .reject httpBadRequest :=
+  decideBody_host_rule lvl http11 fs hh
+
+/-- Non-vacuity / the defect classes on non-canonical field lists: mixed-case names, a list-valued
+    Transfer-Encoding (`gzip, chunked`), `chunked` not final, two Transfer-Encoding fields, two equal
+    Content-Length fields, a list-valued Content-Length, TE + CL at level 1 and at level 0, HTTP/1.0 + TE. -/
+example : bodyKind [⟨[104, 79, 115, 84], [104]⟩, ⟨[116, 82, 65, 78, 83, 70, 69, 82, 45, 101, 110, 99, 111, 100, 105, 110, 103], [103, 122, 105, 112, 44, 32, 99, 104, 117, 110, 107, 101, 100]⟩] = .invalid ∧
+    decideBody 0 true [⟨[104, 79, 115, 84], [104]⟩, ⟨[116, 82, 65, 78, 83, 70, 69, 82, 45, 101, 110, 99, 111, 100, 105, 110, 103], [103, 122, 105, 112, 44, 32, 99, 104, 117, 110, 107, 101, 100]⟩] = .reject 400 := by decide
+example : bodyKind [⟨hdrTransferEncoding, [99, 104, 117, 110, 107, 101, 100, 44, 103, 122, 105, 112]⟩] = .invalid ∧
+    decideBody (-3) false [⟨hdrTransferEncoding, [99, 104, 117, 110, 107, 101, 100, 44, 103, 122, 105, 112]⟩] = .reject 400 := by decide
+example : bodyKind [⟨hdrTransferEncoding, tokChunked⟩, ⟨[84, 82, 65, 78, 83, 70, 69, 82, 45, 69, 78, 67, 79, 68, 73, 78, 71], tokChunked⟩] = .invalid ∧
+    decideBody (-3) false [⟨hdrTransferEncoding, tokChunked⟩, ⟨[84, 82, 65, 78, 83, 70, 69, 82, 45, 69, 78, 67, 79, 68, 73, 78, 71], tokChunked⟩] = .reject 400 := by decide
+example : bodyKind [⟨hdrContentLength, [53]⟩, ⟨[99, 111, 110, 116, 101, 110, 116, 45, 108, 101, 110, 103, 116, 104], [53]⟩] = .invalid ∧
+    decideBody (-3) false [⟨hdrContentLength, [53]⟩, ⟨[99, 111, 110, 116, 101, 110, 116, 45, 108, 101, 110, 103, 116, 104], [53]⟩] = .reject 400 := by decide
+example : bodyKind [⟨hdrContentLength, [53, 44, 32, 53]⟩] = .invalid ∧
+    decideBody (-3) false [⟨hdrContentLength, [53, 44, 32, 53]⟩] = .reject 400 := by decide
+example : bodyKind [⟨hdrContentLength, [53]⟩, ⟨hdrTransferEncoding, [67, 104, 117, 110, 107, 101, 100]⟩] = .invalid ∧
+    decideBody 1 false [⟨hdrContentLength, [53]⟩, ⟨hdrTransferEncoding, [67, 104, 117, 110, 107, 101, 100]⟩] = .reject 400 ∧
+    decideBody 0 false [⟨hdrContentLength, [53]⟩, ⟨hdrTransferEncoding, [67, 104, 117, 110, 107, 101, 100]⟩] = .chunked true := by decide
+example : bodyKind [⟨hdrTransferEncoding, tokChunked⟩] = .chunked ∧
+    decideBody 3 false [⟨hdrTransferEncoding, tokChunked⟩] = .chunked true := by decide
+
+/-- **every refused head ⇒ error reply + close, no resync**, whatever head parser delivered the
+    field list: in `headersReceived` a `reject st` decision queues the error reply, drops the read
+    buffer and leaves the connection in a state from which, by `no_reparse`, no byte is ever parsed
+    as a request again.  With `decideBody_agrees_reference` / `decideBody_rejects_defects` /
+    `host_rule_refuses` this covers each head-level defect class on arbitrary field lists. -/
+theorem framing_defect_no_resync [HeadParser] (lvl : Int) (app : App) (s : St) (st : Nat)
+    (hs : s.state = .headersReceived) (wf : FlagsWF s)
+    (hd : decideBody lvl s.head.http11 s.head.fields = .reject st) :
+    idleStep lvl app s = some (errorReply s st) ∧ NoReparse (errorReply s st) ∧ (errorReply s st).buf = [] :=
+  reject_no_resync lvl app s st hs wf hd
+
 /-! ## (2) the chunk decoder -/
 
 /-- **decode ∘ encode = id, consumed length = encoding length.**  ∀ level, ∀ body split into any
@@ -79,7 +143,7 @@ theorem decideBody_te_cl_tolerated (lvl : Int) (http11 : Bool) (fs : List Field)
     `encodeChunked cs last` — `rest` is left in the buffer untouched, so the trailer section / next
     request starts at the right byte — and (iii) arrives at `bodyReceived`.  `Steps` = finitely many
     iterations of the idle loop. -/
-theorem chunked_decode_encode (lvl : Int) (app : App) (cs : List Chunk) (hcs : ∀ c ∈ cs, ChunkOK lvl c)
+theorem chunked_decode_encode [HeadParser] [LawfulHeadParser] (lvl : Int) (app : App) (cs : List Chunk) (hcs : ∀ c ∈ cs, ChunkOK lvl c)
     (last : Chunk) (hl : LastOK lvl last) (rest : Bytes)
     (s : St) (hs : s.state = .bodyReceiving) (hch : s.chunked = true) (hrem : s.remaining ≠ 0)
     (hcur : s.cur = 0) (hoff : s.off = 0) (hbuf : s.buf = encodeChunked cs last ++ rest) :
@@ -98,7 +162,7 @@ example : ChunkOK 0 ⟨[48, 65], [], [59, 120], .lf, [1, 2, 3, 4, 5, 6, 7, 8, 9,
     size := by decide, nonEmpty := by decide, dataEolOK := Or.inl rfl }
 
 /-- `Steps` is what the executable `idle` does. -/
-theorem steps_idle (lvl : Int) (app : App) (s t : St) (h : Steps lvl app s t) (wf : ChunkWF s) :
+theorem steps_idle [HeadParser] [LawfulHeadParser] (lvl : Int) (app : App) (s t : St) (h : Steps lvl app s t) (wf : ChunkWF s) :
     idle lvl app s = idle lvl app t :=
   (idle_of_steps lvl app s t h wf).1
 
@@ -106,18 +170,18 @@ theorem steps_idle (lvl : Int) (app : App) (s t : St) (h : Steps lvl app s t) (w
     one by one leaves the connection in the same state — same handler calls with the same (coalesced)
     upload bytes, same replies, same close decision, same bytes left in the buffer — as feeding their
     concatenation in one piece.  Covers head, body (identity and chunked), trailers and pipelining. -/
-theorem split_independence (lvl : Int) (app : App) (segs : List Bytes) :
+theorem split_independence [HeadParser] [LawfulHeadParser] (lvl : Int) (app : App) (segs : List Bytes) :
     runSegs lvl app segs = runSegs lvl app [segs.flatten] :=
   runSegs_flatten lvl app segs
 
 /-- … in its incremental form, from any state with ordered chunk counters. -/
-theorem feed_feed (lvl : Int) (app : App) (s : St) (wf : ChunkWF s) (a b : Bytes) :
+theorem feed_feed [HeadParser] [LawfulHeadParser] (lvl : Int) (app : App) (s : St) (wf : ChunkWF s) (a b : Bytes) :
     feed lvl app (feed lvl app s a) b = feed lvl app s (a ++ b) :=
   feed_append lvl app s wf a b
 
-example : runSegs 1 (fun _ => .cont 200 false) [[71, 69, 84], [32, 47, 32, 72, 84, 84, 80, 47, 49, 46, 48, 13], [10, 13, 10]]
-    = runSegs 1 (fun _ => .cont 200 false) [[71, 69, 84, 32, 47, 32, 72, 84, 84, 80, 47, 49, 46, 48, 13, 10, 13, 10]] :=
-  split_independence _ _ _
+example : @runSegs strictParser 1 (fun _ => .cont 200 false) [[71, 69, 84], [32, 47, 32, 72, 84, 84, 80, 47, 49, 46, 48, 13], [10, 13, 10]]
+    = @runSegs strictParser 1 (fun _ => .cont 200 false) [[71, 69, 84, 32, 47, 32, 72, 84, 84, 80, 47, 49, 46, 48, 13, 10, 13, 10]] :=
+  @split_independence strictParser strictLawful _ _ _
 
 /-- **malformed chunk syntax ⇒ error.**  ∀ level: a chunk-size line that does not start with a hex
     digit (400); a chunk size that does not fit 64 bits (413); junk between size and line end (400);
@@ -138,23 +202,36 @@ theorem malformed_chunk_rejected (lvl : Int) :
 
 /-- … and never a silent resync: the error reply drops the read buffer and leaves the connection in a
     state from which, by `no_reparse`, no byte is ever parsed as a request again. -/
-theorem chunk_error_no_resync (lvl : Int) (s : St) (st : Nat) (hc : s.chunked = true) (wf : FlagsWF s)
+theorem chunk_error_no_resync [HeadParser] (lvl : Int) (s : St) (st : Nat) (hc : s.chunked = true) (wf : FlagsWF s)
     (ha : chunkAct lvl s.cur s.off s.buf = .err st) :
     bodyStep lvl s = some (errorReply s st) ∧ NoReparse (errorReply s st) ∧ (errorReply s st).buf = [] :=
   bodyStep_err_noReparse lvl s st hc wf ha
 
 example : chunkAct 1 5 5 [10, 48, 13, 10] = .err 400 := by decide
 
+/-- chunk-size line edge cases, per level (tests of the model by kernel evaluation; the ∀-statements
+    are `chunked_decode_encode` — every hex rendering incl. leading zeros beyond 16 digits, extensions,
+    BWS / bare LF where the level admits them — and `malformed_chunk_rejected`):
+    17 significant hex digits ⇒ 413; 18 leading zeros are fine; BWS before `;` only above level 2;
+    BWS without extension ⇒ 400; bare LF only up to level 0; an extension may contain anything but LF. -/
+example : chunkAct 1 0 0 ([49] ++ List.replicate 16 48 ++ [13, 10]) = .err 413 := by decide
+example : chunkAct 1 0 0 (List.replicate 18 48 ++ [53, 13, 10]) = .line 21 5 := by decide
+example : chunkAct 3 0 0 [53, 32, 59, 120, 13, 10] = .line 6 5 ∧ chunkAct 2 0 0 [53, 32, 59, 120, 13, 10] = .err 400 := by decide
+example : chunkAct 3 0 0 [53, 32, 13, 10] = .err 400 := by decide
+example : chunkAct 0 0 0 [53, 10, 97] = .line 2 5 ∧ chunkAct 1 0 0 [53, 10, 97] = .err 400 := by decide
+example : chunkAct 1 0 0 [53, 59, 34, 13, 34, 61, 13, 10] = .line 8 5 ∧ chunkAct 1 0 0 [53, 59, 97, 10, 98, 13, 10] = .err 400 := by decide
+
 /-! ## (3) pipelined streams -/
 
 /-- **No desynchronisation on valid streams.**  ∀ level, ∀ list of valid generated requests
-    (`MsgOK`: canonical head — `parseHead` accepts it —, framing fields for which `decideBody` gives
+    (`MsgOK`: head bytes which the head parser — any lawful one — accepts, delivering any `Head`
+    whatsoever (any field list); framing fields for which `decideBody` gives
     the body kind that was rendered — see `decideBody_valid` —, identity body of the announced length
     or any admissible chunking plus a canonical trailer section, no `close`), ∀ application that reads
     every body and replies at the final call, ∀ segmentation of the concatenated stream: the handler is
     presented exactly these requests — methods, targets, body bytes, in order — the connection ends
     in `init` with an empty buffer, ready for request number `ms.length`. -/
-theorem pipeline_no_desync (lvl : Int) (app : App) (ms : List Msg) (segs : List Bytes)
+theorem pipeline_no_desync [HeadParser] [LawfulHeadParser] (lvl : Int) (app : App) (ms : List Msg) (segs : List Bytes)
     (hok : ∀ m ∈ ms, MsgOK lvl m) (happ : ∀ j, j < ms.length → ∃ st, app j = .cont st false)
     (hsegs : segs.flatten = ms.flatMap Msg.bytes) :
     framesOf (runSegs lvl app segs) = ms.map Msg.seen ∧
@@ -165,12 +242,13 @@ theorem pipeline_no_desync (lvl : Int) (app : App) (ms : List Msg) (segs : List 
 
 /-- **`frames (impl stream) = Framer.frames stream`.**  ∀ level, ∀ list of requests whose framing
     fields satisfy RFC 9112 §6.3 (`MsgStrict`: no TE and no CL, or one valid CL of the body's length,
-    or TE exactly `chunked` on HTTP/1.1 with no CL; canonical head; strict chunk rendering: CRLF only,
+    or TE exactly `chunked` on HTTP/1.1 with no CL — the three valid outcomes of `bodyKind` —; head
+    bytes accepted by the (arbitrary lawful) head parser; strict chunk rendering: CRLF only,
     no BWS, any chunk sizes / extensions free of CR and LF), on which the Host rule does not fire,
     ∀ segmentation: the requests the model presents to the handler are exactly the frames of the
-    strict reference framer `Framer.frames` (≈ 40 lines in `Mhd.Model.FramingRef`), which consumes
-    the whole stream. -/
-theorem frames_agree_reference (lvl : Int) (app : App) (ms : List Msg) (segs : List Bytes)
+    strict reference framer `Framer.frames` (≈ 40 lines in `Mhd.Model.FramingRef`; it delimits heads
+    with the same head parser and bodies by RFC 9112 §6.3 / §7.1), which consumes the whole stream. -/
+theorem frames_agree_reference [HeadParser] [LawfulHeadParser] (lvl : Int) (app : App) (ms : List Msg) (segs : List Bytes)
     (hms : ∀ m ∈ ms, MsgStrict m) (hh : ∀ m ∈ ms, HostOK lvl m.head.http11 m.head.fields)
     (happ : ∀ j, j < ms.length → ∃ st, app j = .cont st false)
     (hsegs : segs.flatten = ms.flatMap Msg.bytes) :
@@ -179,29 +257,92 @@ theorem frames_agree_reference (lvl : Int) (app : App) (ms : List Msg) (segs : L
   frames_agree lvl app ms segs hms hh happ hsegs
 
 /-- Non-vacuity of `MsgStrict`: a chunked POST with one 3-byte chunk carrying an extension. -/
-example : MsgStrict ⟨[80, 79, 83, 84, 32, 47, 32, 72, 84, 84, 80, 47, 49, 46, 49, 13, 10, 72, 111, 115, 116, 58, 32, 104, 13, 10,
+example : @MsgStrict strictParser ⟨[80, 79, 83, 84, 32, 47, 32, 72, 84, 84, 80, 47, 49, 46, 49, 13, 10, 72, 111, 115, 116, 58, 32, 104, 13, 10,
                       84, 114, 97, 110, 115, 102, 101, 114, 45, 69, 110, 99, 111, 100, 105, 110, 103, 58, 32, 67, 72, 85, 78, 75, 69, 68, 13, 10, 13, 10],
     ⟨[80, 79, 83, 84], [47], true, [⟨[72, 111, 115, 116], [104]⟩, ⟨hdrTransferEncoding, [67, 72, 85, 78, 75, 69, 68]⟩]⟩,
     .chunked [⟨[51], [], [59, 120], .crlf, [97, 98, 99], .crlf⟩] ⟨[48], [], [], .crlf, [], .crlf⟩ [13, 10]⟩ :=
-  { canonical := by decide
-    framing := ⟨⟨[67, 72, 85, 78, 75, 69, 68], by decide, by decide⟩, by decide, rfl,
+  @MsgStrict.mk strictParser _ (by decide)
+    (⟨⟨[67, 72, 85, 78, 75, 69, 68], by decide, by decide⟩, by decide, rfl,
       fun c hc => by
         simp only [List.mem_singleton] at hc; subst hc
         exact { digitsNonempty := by decide, digitsHex := by decide, noOverflow := by decide, noBws := rfl,
                 ext := Or.inr ⟨[120], rfl, by decide⟩, eol := rfl, size := by decide, nonEmpty := by decide, dataEol := rfl },
       { digitsNonempty := by decide, digitsHex := by decide, noOverflow := by decide, noBws := rfl,
         ext := Or.inl rfl, eol := rfl, zero := by decide },
-      ⟨[], by decide⟩⟩
-    noClose := by decide
-    keep := Or.inl rfl }
+      ⟨[], by decide⟩⟩)
+    (by decide) (Or.inl rfl)
 
-/-- The explicit domain restriction is decidable. -/
+/-- What the strict instance accepts is decidable. -/
 example : CanonicalHead [71, 69, 84, 32, 47, 32, 72, 84, 84, 80, 47, 49, 46, 48, 13, 10, 13, 10] := by decide
 
 /-- Non-vacuity of `MsgOK`: `GET / HTTP/1.1` + `Host: h`, no body. -/
-example : MsgOK 3 ⟨[71, 69, 84, 32, 47, 32, 72, 84, 84, 80, 47, 49, 46, 49, 13, 10, 72, 111, 115, 116, 58, 32, 104, 13, 10, 13, 10],
+example : @MsgOK strictParser 3 ⟨[71, 69, 84, 32, 47, 32, 72, 84, 84, 80, 47, 49, 46, 49, 13, 10, 72, 111, 115, 116, 58, 32, 104, 13, 10, 13, 10],
                   ⟨[71, 69, 84], [47], true, [⟨[72, 111, 115, 116], [104]⟩]⟩, .none⟩ :=
-  { canonical := by decide, framing := Or.inl (by decide), noClose := by decide, keep := Or.inl rfl }
+  @MsgOK.mk strictParser _ _ (by decide) (Or.inl (by decide)) (by decide) (Or.inl rfl)
+
+/-- The strict splitter is a lawful head parser (non-vacuity of `LawfulHeadParser`; it is the
+    instance the correspondence run executes). -/
+theorem strict_parser_lawful : @LawfulHeadParser strictParser := strictLawful
+
+/-- Non-vacuity of `MsgOK` on a head that is far from canonical *as a field list*: names in mixed
+    case, optional whitespace around values, the same name twice (`x-a`), a list-valued field, a
+    `cOnTeNt-LeNgTh` of `003`; identity body `abc`. -/
+example : @MsgOK strictParser 1
+    ⟨[80, 85, 84, 32, 47, 120, 32, 72, 84, 84, 80, 47, 49, 46, 49, 13, 10, 104, 79, 115, 84, 58, 9, 32, 104, 32, 13, 10,
+      120, 45, 97, 58, 49, 13, 10, 88, 45, 65, 58, 32, 97, 44, 32, 98, 32, 44, 99, 13, 10,
+      99, 79, 110, 84, 101, 78, 116, 45, 76, 101, 78, 103, 84, 104, 58, 32, 32, 48, 48, 51, 9, 13, 10, 13, 10],
+     ⟨[80, 85, 84], [47, 120], true,
+      [⟨[104, 79, 115, 84], [104]⟩, ⟨[120, 45, 97], [49]⟩, ⟨[88, 45, 65], [97, 44, 32, 98, 32, 44, 99]⟩,
+       ⟨[99, 79, 110, 84, 101, 78, 116, 45, 76, 101, 78, 103, 84, 104], [48, 48, 51]⟩]⟩,
+     .identity [97, 98, 99]⟩ :=
+  @MsgOK.mk strictParser _ _ (by decide) ⟨by decide, by decide⟩ (by decide) (Or.inl rfl)
+
+/-! ## (3b) a handler that takes only part of the upload data it is offered -/
+
+/-- **A partial take is absorbed.**  ∀ level, ∀ state with ordered chunk counters, ∀ `k`: if the
+    body loop offers the handler `n` bytes and the handler takes only `min k n` of them
+    (`takeStep`: exactly those bytes are appended to the upload, removed from the front of the read
+    buffer — the `memmove` —, and `current_chunk_offset` / `remaining_upload_size` advance by exactly
+    that number), then the take-all automaton has a step `s → s'` from the state before, and the
+    state after the partial take either is `s'` or reaches `s'` in one step: the bytes left are
+    presented again and nothing else — no chunk boundary, no counter — has moved. -/
+theorem take_absorbed [HeadParser] [LawfulHeadParser] (lvl : Int) (app : App) (k : Nat) (s s1 : St)
+    (h : takeStep lvl k s = some s1) (wf : ChunkWF s) :
+    ∃ s', idleStep lvl app s = some s' ∧ ChunkWF s1 ∧ (s1 = s' ∨ idleStep lvl app s1 = some s') :=
+  take_confluent lvl app k s s1 h wf
+
+/-- **No desynchronisation under any take pattern.**  ∀ level, ∀ application, ∀ schedule — any
+    interleaving of bytes arriving (`bytes b`), idle-loop cases in which the handler takes all it is
+    offered (`step`) and body-loop iterations in which it takes at most `k` bytes (`take k`, every
+    `k`, 0 included): once the loop has then run to quiescence, the connection is in exactly the
+    state that feeding all the arrived bytes in one piece to the take-all automaton produces — the
+    same handler calls with the same coalesced upload bytes (concatenation of the bytes taken = the
+    body), same chunk position, same replies, same bytes left for the next request. -/
+theorem partial_takes_no_desync [HeadParser] [LawfulHeadParser] (lvl : Int) (app : App) (is : List Inp) :
+    idle lvl app (runSched lvl app is {}) = runSegs lvl app [is.flatMap Inp.arrived] :=
+  sched_eq_runSegs lvl app is
+
+/-- … hence `pipeline_no_desync` for every take pattern: the handler is presented exactly the
+    generated requests with exactly their bodies, and the next request starts at the right byte. -/
+theorem pipeline_no_desync_takes [HeadParser] [LawfulHeadParser] (lvl : Int) (app : App) (ms : List Msg) (is : List Inp)
+    (hok : ∀ m ∈ ms, MsgOK lvl m) (happ : ∀ j, j < ms.length → ∃ st, app j = .cont st false)
+    (hbytes : is.flatMap Inp.arrived = ms.flatMap Msg.bytes) :
+    framesOf (idle lvl app (runSched lvl app is {})) = ms.map Msg.seen ∧
+    (idle lvl app (runSched lvl app is {})).state = .init ∧ (idle lvl app (runSched lvl app is {})).buf = [] ∧
+    (idle lvl app (runSched lvl app is {})).nreq = ms.length := by
+  rw [partial_takes_no_desync lvl app is]
+  exact pipeline_no_desync lvl app ms [is.flatMap Inp.arrived] hok happ (by simpa using hbytes)
+
+/-- Non-vacuity: `POST` with a 5-byte chunk arriving in two pieces; the handler takes 2, then 0,
+    then (after the rest has arrived) 1 byte, then all: 3 partial takes really happen (the state
+    changes at each), and the upload seen is `hello`. -/
+example :
+    let s0 : St := { state := .bodyReceiving, chunked := true, remaining := sizeUnknown, buf := [53, 13, 10, 104, 101, 108] }
+    let s1 := @runSched strictParser 1 (fun _ => .cont 200 false) [.step, .take 2] s0
+    let s2 := @runSched strictParser 1 (fun _ => .cont 200 false) [.take 0, .bytes [108, 111, 13, 10, 48, 13, 10], .take 1] s1
+    s1.buf = [108] ∧ s1.off = 2 ∧ s1.out = [.upload [104, 101]] ∧
+    s2.buf = [108, 111, 13, 10, 48, 13, 10] ∧ s2.off = 3 ∧ s2.out = [.upload [104, 101, 108]] ∧
+    (@idle strictParser 1 (fun _ => .cont 200 false) s2).out.getLast? = some (.upload [104, 101, 108, 108, 111]) := by decide
 
 /-! ## (4) the key safety theorem on the connection automaton -/
 
@@ -210,29 +351,29 @@ example : MsgOK 3 ⟨[71, 69, 84, 32, 47, 32, 72, 84, 84, 80, 47, 49, 46, 49, 13
     cases under any application behaviour, interleaved with any bytes from the client — the
     automaton is never in `init` again: no later byte reaches the request-line parser
     (`parseHead` is only evaluated in `init`). -/
-theorem no_reparse (lvl : Int) (s s' : St) (hr : Reach lvl s s') (hwf : FlagsWF s)
+theorem no_reparse [HeadParser] (lvl : Int) (s s' : St) (hr : Reach lvl s s') (hwf : FlagsWF s)
     (ht : Tainted s) (hs : s.state ≠ .init) : s'.state ≠ .init ∧ Tainted s' :=
   let j := reach_noReparse lvl s s' hr ⟨hwf, ht, hs⟩
   ⟨j.2.2, j.2.1⟩
 
 /-- … and once the current request is past its first handler call, the handler is never shown
     another request: the number of `first` events stays what it is, forever. -/
-theorem no_further_request (lvl : Int) (s s' : St) (hr : Reach lvl s s') (hwf : FlagsWF s)
+theorem no_further_request [HeadParser] (lvl : Int) (s s' : St) (hr : Reach lvl s s') (hwf : FlagsWF s)
     (ht : Tainted s) (hp : PastFirst s) : countFirst s'.out = countFirst s.out :=
   (reach_past lvl s s' hr ⟨hwf, ht, hp.1⟩ hp).2.2
 
 /-- The hypothesis `FlagsWF` holds in every state the model can reach from a fresh connection. -/
-theorem flagsWF_reachable (lvl : Int) (s : St) (hr : Reach lvl {} s) : FlagsWF s :=
+theorem flagsWF_reachable [HeadParser] (lvl : Int) (s : St) (hr : Reach lvl {} s) : FlagsWF s :=
   reach_flagsWF lvl {} s hr flagsWF_init
 
 /-- Where the taint comes from (i): an error reply (`transmit_error_response_len`). -/
-theorem error_reply_taints (s : St) (status : Nat) (hwf : FlagsWF s) :
+theorem error_reply_taints [HeadParser] (s : St) (status : Nat) (hwf : FlagsWF s) :
     Tainted (errorReply s status) ∧ (errorReply s status).state ≠ .init :=
   (errorReply_props s status hwf).2
 
 /-- For whole runs: whatever was fed before (`segs₁`), if the connection is then tainted and not
     in `init`, no continuation `segs₂` of the stream brings it back to `init` or shows the handler a new request. -/
-theorem no_reparse_run (lvl : Int) (app : App) (segs₁ segs₂ : List Bytes)
+theorem no_reparse_run [HeadParser] (lvl : Int) (app : App) (segs₁ segs₂ : List Bytes)
     (ht : Tainted (runSegs lvl app segs₁)) (hs : (runSegs lvl app segs₁).state ≠ .init) :
     (runSegs lvl app (segs₁ ++ segs₂)).state ≠ .init := by
   have h1 : Reach lvl {} (runSegs lvl app segs₁) := reach_foldl_feed lvl app segs₁ {}
@@ -244,13 +385,13 @@ theorem no_reparse_run (lvl : Int) (app : App) (segs₁ segs₂ : List Bytes)
     middle of the body, in a tainted state other than `init` (the hypotheses of `no_reparse`), and an
     early reply ends in `closed`. -/
 example :
-    (runSegs 0 (fun _ => .cont 200 false) [[80, 79, 83, 84, 32, 47, 32, 72, 84, 84, 80, 47, 49, 46, 49, 13, 10, 72, 111, 115, 116, 58, 32, 104, 13, 10, 84, 114, 97, 110, 115, 102, 101, 114, 45, 69, 110, 99, 111, 100, 105, 110, 103, 58, 32, 99, 104, 117, 110, 107, 101, 100, 13, 10, 67, 111, 110, 116, 101, 110, 116, 45, 76, 101, 110, 103, 116, 104, 58, 32, 51, 13, 10, 13, 10, 53, 13, 10, 97, 98]]).keepalive = .mustClose ∧
-    (runSegs 0 (fun _ => .cont 200 false) [[80, 79, 83, 84, 32, 47, 32, 72, 84, 84, 80, 47, 49, 46, 49, 13, 10, 72, 111, 115, 116, 58, 32, 104, 13, 10, 84, 114, 97, 110, 115, 102, 101, 114, 45, 69, 110, 99, 111, 100, 105, 110, 103, 58, 32, 99, 104, 117, 110, 107, 101, 100, 13, 10, 67, 111, 110, 116, 101, 110, 116, 45, 76, 101, 110, 103, 116, 104, 58, 32, 51, 13, 10, 13, 10, 53, 13, 10, 97, 98]]).state = .bodyReceiving := by decide
+    (@runSegs strictParser 0 (fun _ => .cont 200 false) [[80, 79, 83, 84, 32, 47, 32, 72, 84, 84, 80, 47, 49, 46, 49, 13, 10, 72, 111, 115, 116, 58, 32, 104, 13, 10, 84, 114, 97, 110, 115, 102, 101, 114, 45, 69, 110, 99, 111, 100, 105, 110, 103, 58, 32, 99, 104, 117, 110, 107, 101, 100, 13, 10, 67, 111, 110, 116, 101, 110, 116, 45, 76, 101, 110, 103, 116, 104, 58, 32, 51, 13, 10, 13, 10, 53, 13, 10, 97, 98]]).keepalive = .mustClose ∧
+    (@runSegs strictParser 0 (fun _ => .cont 200 false) [[80, 79, 83, 84, 32, 47, 32, 72, 84, 84, 80, 47, 49, 46, 49, 13, 10, 72, 111, 115, 116, 58, 32, 104, 13, 10, 84, 114, 97, 110, 115, 102, 101, 114, 45, 69, 110, 99, 111, 100, 105, 110, 103, 58, 32, 99, 104, 117, 110, 107, 101, 100, 13, 10, 67, 111, 110, 116, 101, 110, 116, 45, 76, 101, 110, 103, 116, 104, 58, 32, 51, 13, 10, 13, 10, 53, 13, 10, 97, 98]]).state = .bodyReceiving := by decide
 
 example :
-    (runSegs 0 (fun _ => .early 200 false)
+    (@runSegs strictParser 0 (fun _ => .early 200 false)
       [[71, 69, 84, 32, 47, 32, 72, 84, 84, 80, 47, 49, 46, 48, 13, 10, 13, 10]]).discard = true ∧
-    (runSegs 0 (fun _ => .early 200 false)
+    (@runSegs strictParser 0 (fun _ => .early 200 false)
       [[71, 69, 84, 32, 47, 32, 72, 84, 84, 80, 47, 49, 46, 48, 13, 10, 13, 10]]).state = .closed := by decide
 
 end Mhd.C03
